@@ -149,8 +149,9 @@ TRUSTED = [
     'MCNP keeps only the sheet of the frustum for a bare b.1 reference is not '
     'settled by the manual: sweep points beyond the apex are skipped for '
     '+-b.1 probes (counted as trc_facet1_other_sheet)',
-    'harness: generators, mcnpref/t4eval oracles, impl.T4File reader, PEG '
-    'shim replacing TatSu',
+    'harness: generators, mcnpref/t4eval/geomcheck oracles (the lattice '
+    'reference takes the lattice vectors from the generator), impl.T4File '
+    'reader, PEG shim replacing TatSu',
 ]
 ASSUMPTIONS = [
     'no class of C03 is open: the left-handed WED defect (DESIGN 8 #20) was '
@@ -802,11 +803,25 @@ def _impl_expand_raw(new_key, n, sub, ids):
     except Exception as exc:      # pylint: disable=broad-except
         return ('err', ERRMAP.get(type(exc).__name__,
                                   'EOther_' + type(exc).__name__))
-    if isinstance(tree, int):
-        return ('ok', ('leaf', int(tree)), conv.new_cell_key)
-    key, oper, *args = tree
-    return ('ok', ('node', int(key), oper, [int(a) for a in args]),
-            conv.new_cell_key)
+    # the fresh-cell counter after the call is observed through the public
+    # behaviour (the key given to the NEXT expanded collection), not by reading
+    # an attribute of the converter object
+    try:
+        probe = conv.pot_expand_surfs(Surface(-7), {7: [7, 8]})
+        counter = int(list(probe)[0]) - 1
+    except Exception:      # pylint: disable=broad-except
+        counter = None
+    try:
+        leaf_id = int(tree)
+    except (TypeError, ValueError):
+        leaf_id = None
+    if leaf_id is not None:
+        return ('ok', ('leaf', leaf_id),
+                counter if counter is not None else new_key)
+    key, oper, *args = list(tree)
+    if counter is None:
+        counter = int(key)
+    return ('ok', ('node', int(key), str(oper), [int(a) for a in args]), counter)
 
 
 def coq_expand_out(out):
@@ -966,6 +981,81 @@ def impl_deck(mn, prm, tr):
                 return None, text
             out.append((typ, [float(x) for x in params], sign))
     return out, text
+
+
+# ---- LAT=1 cells bounded by the FACETS of a macrobody --------------------------
+#
+# MCNP takes the lattice axes from the ORDER in which the bounding surfaces are
+# listed on the cell card: element [1,0,0] lies beyond the first listed surface,
+# [-1,0,0] beyond the second, [0,1,0] beyond the third ...  When the surfaces are
+# facets b.k of an RPP / BOX, each reference must keep its facet number on the
+# way to the lattice code (extract_surfaces), or the elements end up along the
+# wrong directions.  Reference: mcnpref.Reference through geomcheck.compare
+# (point -> chain of cells -> expected composition), the lattice vectors being
+# the generator's ground truth.
+
+RPP_OUTWARD = {1: (0, 1), 2: (0, -1), 3: (1, 1), 4: (1, -1), 5: (2, 1), 6: (2, -1)}
+
+
+def gen_facet_lattice(rng):
+    '''Abstract deck (harness/deck.py): an RPP whose six facets, listed pair by
+    pair in a random order and with a random first member, bound a LAT=1 cell
+    filled with a non-uniform array of two universes.'''
+    centre = [rng.choice([-1.0, -0.5, 0.0, 0.25, 0.5]) for _ in range(3)]
+    pitch = [rng.choice([1.0, 1.5, 2.0]) for _ in range(3)]
+    prm = []
+    for k in range(3):
+        prm += [centre[k] - pitch[k] / 2, centre[k] + pitch[k] / 2]
+    pairs = [(1, 2), (3, 4), (5, 6)]
+    rng.shuffle(pairs)
+    order, vectors = [], []
+    for far, near in pairs:
+        first, second = (far, near) if rng.random() < 0.5 else (near, far)
+        order += [first, second]
+        axis, sign = RPP_OUTWARD[first]
+        vec = [0.0, 0.0, 0.0]
+        vec[axis] = sign * pitch[axis]
+        vectors.append(vec)
+    ranges = [rng.choice([(0, 1), (-1, 0), (-1, 1), (0, 2), (0, 0)])
+              for _ in range(3)]
+    if all(lo == hi for lo, hi in ranges):
+        ranges[0] = (0, 1)
+    count = 1
+    for lo, hi in ranges:
+        count *= hi - lo + 1
+    array = [rng.choice([2, 3, 2, 3, 0]) for _ in range(count)]
+    if 2 not in array:
+        array[0] = 2
+    if 3 not in array:
+        array[-1] = 3
+    expr = ('*',) + tuple(('f', -21, k) for k in order)
+    cells = [
+        {'id': 1, 'mat': 0, 'rho': None, 'expr': ('s', -10), 'imp': {'n': 1},
+         'u': 0, 'fill': {'u': 1, 'tr': None}},
+        {'id': 2, 'mat': 0, 'rho': None, 'expr': ('s', 9), 'imp': {'n': 0},
+         'u': 0},
+        {'id': 3, 'mat': 3, 'rho': '-1.0', 'expr': ('*', ('s', 10), ('s', -9)),
+         'imp': {'n': 1}, 'u': 0},
+        {'id': 5, 'mat': 5, 'rho': '-1.0', 'expr': expr, 'imp': {'n': 1},
+         'u': 1, 'lat': 1,
+         'fill': {'ranges': ranges, 'array': array, 'tr': None},
+         'trcl': None, 'lat_vectors': vectors, 'lat_centre': list(centre)},
+        {'id': 11, 'mat': 11, 'rho': '-1.0', 'expr': ('s', -30),
+         'imp': {'n': 1}, 'u': 2},
+        {'id': 12, 'mat': 12, 'rho': '-2.0', 'expr': ('s', -30),
+         'imp': {'n': 1}, 'u': 3},
+    ]
+    surfaces = [
+        {'id': 21, 'mn': 'rpp', 'params': [float(v) for v in prm], 'tr': None,
+         'bc': ''},
+        {'id': 10, 'mn': 'so', 'params': [6.0], 'tr': None, 'bc': ''},
+        {'id': 9, 'mn': 'so', 'params': [7.0], 'tr': None, 'bc': ''},
+        {'id': 30, 'mn': 'so', 'params': [90.0], 'tr': None, 'bc': ''},
+    ]
+    materials = {m: ['1001', '1'] for m in (3, 5, 11, 12)}
+    return {'title': 'C03 lattice bounded by macrobody facets', 'cells': cells,
+            'surfaces': surfaces, 'transforms': {}, 'materials': materials,
+            'data': []}, order
 
 
 # ---- run ---------------------------------------------------------------------
@@ -1548,6 +1638,44 @@ def _run(res, tier, seed, proofs_ok):
                    'macrobody in several ways',
                    tchecked > (15000 if quick else 300000),
                    f'{tchecked} comparisons')
+
+    # ---- 3c. lattice cells bounded by facets listed in any order ----
+    import deck as deckmod
+    import geomcheck
+    n_lat = 14 if quick else 150
+    lchecked = 0
+    for d in range(n_lat):
+        ldeck, order = gen_facet_lattice(rng)
+        res.count('facet-lattice:first-pair:' + 'xyz'[RPP_OUTWARD[order[0]][0]])
+        try:
+            conv, t4, nchk, fails = geomcheck.convert_and_compare(
+                ldeck, rng, n_points=150 if quick else 300)
+        except Exception as exc:      # pylint: disable=broad-except
+            res.count(f'facet-lattice:oracle-error:{type(exc).__name__}')
+            continue
+        if not conv.ok or t4 is None:
+            res.violation('impl-violation',
+                          'lattice cell bounded by the facets '
+                          f'{order} of an RPP is rejected: {conv.exc}: '
+                          f'{(conv.msg or "")[:200]}',
+                          {'input': {'deck': deckmod.render(ldeck)}},
+                          found_input=True)
+            continue
+        lchecked += nchk
+        if d == 0:
+            res.sample({'deck': deckmod.render(ldeck)})
+        for fail in fails[:2]:
+            res.violation('impl-violation',
+                          f'lattice bounded by RPP facets listed as {order}: '
+                          f'point {fail["point"]}: {fail["why"]}',
+                          {'input': {'deck': deckmod.render(ldeck),
+                                     'failure': fail}},
+                          cls=None, found_input=True)
+    res.count('facet-lattice:membership-comparisons', lchecked)
+    res.obligation(f'sweep-facet-lattice: {lchecked} points of {n_lat} LAT=1 '
+                   'cells bounded by macrobody facets listed in any order, '
+                   'against the MCNP reference (cell chain and composition)',
+                   lchecked > (800 if quick else 15000), f'{lchecked} points')
 
     # facet numbers beyond the last facet must stop the conversion
     for mn, prm in [('box', G.gen_box(rng)), ('rcc', G.gen_rcc(rng)),
